@@ -57,7 +57,7 @@ def tlc_many(ctx, jobs):
     """jobs: list of (args, kwargs) for ctx.tlc; run concurrently, results in order."""
     if not jobs:
         return []
-    with concurrent.futures.ThreadPoolExecutor(max_workers=max(1, min(3, len(jobs)))) as ex:
+    with concurrent.futures.ThreadPoolExecutor(max_workers=max(1, min(4, len(jobs)))) as ex:
         futs = [ex.submit(ctx.tlc, *a, **kw) for a, kw in jobs]
         return [f.result() for f in futs]
 
@@ -121,21 +121,26 @@ def run_of(lines, idx):
     return a, b
 
 
-def validate_mode(ctx, mode, path, stage):
-    """returns number of accepted runs; reports violations"""
+def validate_traces(ctx, traces, stage):
+    """traces: [(mode, path)].  All parts of all modes are validated concurrently.
+    Returns the number of accepted runs; reports violations."""
     nparts = max(1, min(NCPU // 2, 8))
-    parts = split_runs(path, nparts, ctx.tmp, mode)
-    if not parts:
+    jobs, meta = [], []
+    for mode, path in traces:
+        parts = split_runs(path, nparts, ctx.tmp, mode)
+        cfg = "SqliteEngineTrace_%s.cfg" % mode
+        for i, (p, lines) in enumerate(parts):
+            jobs.append((("SqliteEngineTrace", cfg), dict(workers=1, files={"trace.ndjson": p}, timeout=3000, heap="4g",
+                                                        name="%s %s part %d/%d" % (stage, mode, i + 1, len(parts)),
+                                                        expect_violation=True)))
+            meta.append((mode, cfg, p, lines))
+    if not jobs:
         return 0
-    cfg = "SqliteEngineTrace_%s.cfg" % mode
-    jobs = [(("SqliteEngineTrace", cfg), dict(workers=1, files={"trace.ndjson": p}, timeout=3000, heap="4g",
-                                             name="%s %s part %d/%d" % (stage, mode, i + 1, len(parts)),
-                                             expect_violation=True)) for i, (p, _) in enumerate(parts)]
-    with concurrent.futures.ThreadPoolExecutor(max_workers=len(jobs)) as ex:
+    with concurrent.futures.ThreadPoolExecutor(max_workers=min(len(jobs), max(2, NCPU))) as ex:
         futs = [ex.submit(ctx.tlc, *a, **kw) for a, kw in jobs]
         results = [f.result() for f in futs]
     accepted = 0
-    for (p, lines), tv in zip(parts, results):
+    for (mode, cfg, p, lines), tv in zip(meta, results):
         nruns = sum(1 for ln in lines if '"ev":"Reset"' in ln)
         if not tv.violated:
             accepted += nruns
@@ -226,7 +231,15 @@ def _run(ctx, scratch):
     if model_only:   # the exhaustive stage judges the specification, not the tree under test, and ignores the seed
         jobs = []
         ctx.log("exhaustive configurations skipped (selftest / VERIF_C17_SKIP_MC)")
-    for (kind, _a, kw), res in zip(jobs, tlc_many(ctx, [(a, kw) for _k, a, kw in jobs])):
+    # (the two behaviour exports for stage 2 run in the same pool)
+    beh_job = (("SqliteEngineMC", "SqliteEngine_beh_big.cfg" if th else "SqliteEngine_beh.cfg"),
+               dict(timeout=3000, heap="6g", workers=W, name="behaviour export (reading path, %d steps)" % (9 if th else 8)))
+    sim_job = (("SqliteEngineMC", "SqliteEngine_sim.cfg"),
+               dict(simulate=(400 if th else 40, 41), timeout=1800, heap="4g",
+                    name="simulated long behaviours (5 writes, 3 crashes)"))
+    results = tlc_many(ctx, [(a, kw) for _k, a, kw in jobs] + [beh_job, sim_job])
+    beh, sim = results[-2], results[-1]
+    for (kind, _a, kw), res in zip(jobs, results):
         ctx.require_model_ok(res, "SqliteEngine invariants")
         if kw.get("coverage"):
             dead = sorted(a for a in LIVE[kind] if res.coverage.get(a, 0) == 0)
@@ -235,14 +248,14 @@ def _run(ctx, scratch):
     ctx.ev.set("exhaustive", not model_only)
 
     # 2. S->I: the reading path
-    beh = ctx.tlc("SqliteEngineMC", "SqliteEngine_beh_big.cfg" if th else "SqliteEngine_beh.cfg", timeout=3000, heap="6g",
-                  name="behaviour export (reading path, %d steps)" % (9 if th else 8))
     ctx.require_model_ok(beh, "behaviour export")
     bs = beh.behaviours
     if not bs:
         raise Infra("no behaviours exported")
+    bs.sort(key=lambda b: json.dumps(b, sort_keys=True))   # TLC's worker interleaving must not pick the sample
     rnd.shuffle(bs)
-    def kind(b):
+
+    def group_of(b):
         if any(s["a"] == "Desync" for s in b):
             return "desync"          # apply() must skip the bytes the database already holds
         if any(s["a"] == "Commit" and s["post"]["cinfo"] != s["off"] or
@@ -253,15 +266,13 @@ def _run(ctx, scratch):
         return "plain"
     groups = {}
     for b in bs:
-        groups.setdefault(kind(b), []).append(b)
+        groups.setdefault(group_of(b), []).append(b)
     n1 = 4000 if th else 600
     take = []
     for k in ("desync", "lowcommit", "crash", "plain"):
         take += groups.get(k, [])[: n1 // 4]
     if not groups.get("desync") or not groups.get("lowcommit"):
         raise Infra("behaviour export lacks Desync / low Commit behaviours: %s" % {k: len(v) for k, v in groups.items()})
-    sim = ctx.tlc("SqliteEngineMC", "SqliteEngine_sim.cfg", simulate=(400 if th else 40, 41), timeout=1800, heap="4g",
-                  name="simulated long behaviours (5 writes, 3 crashes)")
     ctx.require_model_ok(sim, "simulation export")
     per = {}
     for b in sim.behaviours:
@@ -290,9 +301,7 @@ def _run(ctx, scratch):
     if cnt.get("hung"):
         ctx.save("hung_notes.txt", "\n".join(res.get("notes") or []))
         raise Infra("%d child processes hung" % cnt["hung"])
-    accepted = 0
-    for mode, path in zip(("wait", "nowait"), res["files"]):
-        accepted += validate_mode(ctx, mode, path, "trace validation")
+    accepted = validate_traces(ctx, list(zip(("wait", "nowait"), res["files"])), "trace validation")
     kills = {k[5:]: v for k, v in cnt.items() if k.startswith("kill@")}
     ctx.ev.add_impl("kill/restart chains of real engine processes accepted by SqliteEngineTrace", accepted,
                     steps=res["steps"], generations=cnt.get("generations", 0), kills_by_point=kills,
